@@ -39,7 +39,10 @@ def setter_discipline_rule(ctx, rid, class_filter=None, min_instances=8):
         for name, f in sorted(ci.setters.items()):
             body = f.node.body
             stores = self_stores(f)
-            attrs = sorted({a for a, _, kind in stores})
+            # the backing attributes: direct stores and the container updates `is_store` recognises; bookkeeping on
+            # the instance dictionary (`self.__dict__.pop(...)`) and removals are not stores of the new value
+            _upd = ("append", "extend", "update", "add", "insert", "clear")
+            attrs = sorted({a for a, _, kind in stores if not (a.startswith("__") and a.endswith("__")) and (not kind.startswith("mutating-call:") or kind.split(":", 1)[1] in _upd)})
             calls = sorted({(dotted(c.func) or "").split(".")[-1] for c in ast.walk(f.node) if isinstance(c, ast.Call)} & NOTIFIERS)
             if not attrs and not calls:
                 continue
